@@ -234,7 +234,7 @@ _wt = ["c02w_storage_header_id0", "c02w_storage_header_id3", "c02w_standard_head
 _w = _wq + ["c02w_payload_nonverbose_control", "c02w_payload_nettrace_le", "c02w_payload_nettrace_be"]
 _wmsg = ["c02w_msg_nonverbose_min", "c02w_msg_nonverbose_ext_storage_be", "c02w_msg_control_le", "c02w_msg_nettrace_be", "c02w_msg_nettrace_storage_le", "c02w_msg_nettrace_empty", "c02w_msg_verbose_f64_all_le", "c02w_msg_verbose_sfix64_v_storage",
          "c02w_msg_verbose_bool_le", "c02w_msg_verbose_u32_named_be_storage", "c02w_msg_verbose_empty"]
-_wmsg_q = ["c02w_msg_nonverbose_ext_storage_be", "c02w_msg_control_le", "c02w_msg_nettrace_be", "c02w_msg_nettrace_storage_le", "c02w_msg_verbose_bool_le", "c02w_msg_verbose_sfix64_v_storage", "c02w_msg_verbose_empty"]
+_wmsg_q = ["c02w_msg_nonverbose_ext_storage_be", "c02w_msg_control_le", "c02w_msg_nettrace_be", "c02w_msg_verbose_bool_le", "c02w_msg_verbose_sfix64_v_storage"]
 _d = []
 _dt = ["c02d_standard_header_full_length", "c02d_extended_header_full_length", "c02d_standard_header_all_bytes", "c02d_extended_header_all_bytes", "c02d_storage_header_fields"]
 PROPS["C02"] = {
